@@ -564,6 +564,12 @@ fn parse_literal(ast: &ast::Literal, context: &mut Context) -> TyperResult<Typed
     let constant = match ast {
         ast::Literal::Bool(b) => ir::Constant::Bool(*b),
         ast::Literal::IntUntyped(i) => ir::Constant::IntLiteral(*i as i128),
+        // A 'u' suffixed value beyond 32 bits has no type that could hold it: refuse it instead of truncating
+        ast::Literal::IntUnsigned32(i) if *i > u32::MAX as u64 => {
+            return Err(TyperError::Int64LiteralNotSupported(
+                SourceLocation::UNKNOWN,
+            ));
+        }
         ast::Literal::IntUnsigned32(i) => ir::Constant::UInt32(*i as u32),
         // There is no 64-bit integer type these literals could have
         ast::Literal::IntUnsigned64(_) | ast::Literal::IntSigned64(_) => {
